@@ -159,6 +159,13 @@ func (c *Ctx) c05Sibling(fo *FO) {
 				d, t := c.pathDetail(fo, p, fmt.Sprintf("SyncRead owner path performs %d backend reads, expected exactly one inside the section", reads))
 				r.Bad("R05.1", cons, "read-count", c.Pos(p.RetPos), d, t)
 			}
+			// a Get that finds the key locked reads inside the section as well: the value the owner refreshed (or just stored) serves it
+			// without waiting for a builder it does not depend on — and a builder that reads its own key through the same instance
+			// is not made to wait for itself
+			if reads != 1 && cl.lookup != nil && cl.found {
+				d, t := c.pathDetail(fo, p, fmt.Sprintf("SyncRead waiter path performs %d backend reads, expected exactly one inside the section", reads))
+				r.Bad("R05.1", cons, "waiter-read-count", c.Pos(p.RetPos), d, t)
+			}
 		}
 		// R05.2 – R05.5 on complete executions
 		seqs, facts := fullSeqs(p)
